@@ -151,7 +151,9 @@ def corrupt(desc: dict, target: int, cor: dict) -> tuple[bytes, dict]:
     else:
         raise RuntimeError(f'unknown corruption {kind}')
     raw = dict(desc, attrs=[{'code': 0, 'raw': b''.join(new).hex()}])
-    return ws.render_update(raw), {'code': code, 'kind': label}
+    moved = kind == 'overrun' and cor.get('last')
+    offset = sum(len(x) for x in (new[:-1] if moved else new[:target]))
+    return ws.render_update(raw), {'code': code, 'kind': label, 'offset': offset}
 
 
 # ---------------------------------------------------------------------------- the enumerated grid
@@ -177,7 +179,7 @@ def grid_base(session: dict, placement: str) -> dict:
         {'code': 1, 'flags': 0x40, 'v': 1},
         {'code': 2, 'flags': 0x40, 'v': [[2, [65001, 70000 if asn4 else 23456]], [1, [64512, 64513]]]},
     ]
-    if placement == 'v4':
+    if placement in ('v4', 'both'):
         attrs.append({'code': 3, 'flags': 0x40, 'v': '10.0.0.1'})
     attrs += [
         {'code': 4, 'flags': 0x80, 'v': 100},
@@ -188,7 +190,7 @@ def grid_base(session: dict, placement: str) -> dict:
         {'code': 9, 'flags': 0x80, 'v': '1.2.3.4'},
         {'code': 10, 'flags': 0x80, 'v': ['10.0.0.1', '192.0.2.1']},
     ]
-    if placement in ('mp', 'mp-first'):
+    if placement in ('mp', 'mp-first', 'both'):
         attrs.append({'code': 14, 'flags': 0x80, 'v': {'afi': 2, 'safi': 1, 'hops': ['2001:db8::1'], 'entries': [ent('2001:db8:1::/48', 2), ent('2001:db8:2:3::/64', 2)]}})
     attrs.append({'code': 15, 'flags': 0x80, 'v': {'afi': 2, 'safi': 1, 'entries': [ent('2001:db8:ffff::/48', 2)]}})
     attrs.append({'code': 16, 'flags': 0xC0, 'v': ['0002fde800000064', '010201020304000a']})
@@ -207,7 +209,7 @@ def grid_base(session: dict, placement: str) -> dict:
         # RFC 7606 5.1: MP_REACH / MP_UNREACH first, so that their NLRI is found before anything else can go wrong
         desc['attrs'] = [a for a in attrs if a['code'] in (14, 15)] + [a for a in attrs if a['code'] not in (14, 15)]
         desc['order'] = 'mp-first'
-    if placement == 'v4':
+    if placement in ('v4', 'both'):
         desc['nlri'] = [ent('10.1.0.0/16', 1), ent('10.2.3.0/24', 1)]
     return desc
 
@@ -310,7 +312,7 @@ def grid_corruptions(desc: dict, target: int) -> list[dict]:
     if not last:
         cors += [{'kind': 'swallow'}]
     cors += [{'kind': 'overrun', 'k': 1}, {'kind': 'overrun', 'k': 200}, {'kind': 'overrun', 'k': 1, 'last': True}, {'kind': 'overrun', 'k': 2, 'last': True}]
-    cors += [{'kind': 'flags', 'mask': 0x80}, {'kind': 'flags', 'mask': 0x40}, {'kind': 'extlen'}]
+    cors += [{'kind': 'flags', 'mask': 0x80}, {'kind': 'flags', 'mask': 0x40}, {'kind': 'flags', 'mask': 0xC0}, {'kind': 'extlen'}]
     cors += value_corruptions(code, value, desc['session'])
     cors += [{'kind': 'truncate', 'at': 2}]
     if value:
@@ -327,12 +329,22 @@ _GRID: list = []
 def fixed_cases() -> list:
     if _GRID:
         return _GRID
-    for session in GRID_SESSIONS:
-        for placement in ('v4', 'mp', 'mp-first'):
+    for n, session in enumerate(GRID_SESSIONS):
+        for placement in ('v4', 'mp', 'mp-first') + (('both',) if n < 2 else ()):
             desc = grid_base(session, placement)
             for target in range(len(desc['attrs'])):
                 for cor in grid_corruptions(desc, target):
                     _GRID.append({'session': session, 'base': desc, 'target': target, 'cor': cor})
+    # a well-known mandatory attribute swallowed whole by the unknown attribute in front of it (RFC 7606 3.d)
+    for session in GRID_SESSIONS[:2]:
+        for code in (1, 2, 3):
+            desc = grid_base(session, 'v4')
+            attrs = [a for a in desc['attrs'] if a['code'] != 0x63]
+            at = next(i for i, a in enumerate(attrs) if a['code'] == code)
+            attrs.insert(at, {'code': 0x63, 'flags': 0xC0, 'v': 'deadbeef'})
+            desc = dict(desc, attrs=attrs, order='permuted')
+            size = len(base_tlvs(desc)[at + 1])
+            _GRID.append({'session': session, 'base': desc, 'target': at, 'cor': {'kind': 'lenfield', 'delta': size}})
     return _GRID
 
 
@@ -356,9 +368,9 @@ def cases(draw):
     value = ws.attr_value_bytes(a, session)
     generic = [
         st.just({'kind': 'short'}),
-        st.builds(lambda n: {'kind': 'short', 'n': n}, st.integers(1, 5)),
+        st.builds(lambda n: {'kind': 'short', 'n': n, 'random': True}, st.integers(2, 5)),
         st.just({'kind': 'empty'}),
-        st.builds(lambda b: {'kind': 'long', 'hex': b.hex()}, st.binary(min_size=1, max_size=5)),
+        st.builds(lambda b: {'kind': 'long', 'hex': b.hex(), 'random': True}, st.binary(min_size=1, max_size=5)),
         st.builds(lambda d: {'kind': 'lenfield', 'delta': d}, st.sampled_from([-3, -2, -1, 1, 2, 3, 7])),
         st.just({'kind': 'swallow'}),
         st.builds(lambda k: {'kind': 'overrun', 'k': k}, st.sampled_from([1, 1, 2, 3, 4, 16, 200, 5000])),
@@ -367,7 +379,7 @@ def cases(draw):
         st.just({'kind': 'extlen'}),
         st.builds(lambda p: {'kind': 'truncate', 'at': p}, st.integers(-6, 12)),
         st.builds(lambda w: {'kind': 'duplicate', 'where': w, 'hex': second_value(a['code'], value).hex()}, st.sampled_from(['after', 'end'])),
-        st.builds(lambda b: {'kind': 'value', 'name': 'random-value', 'hex': b.hex()}, st.binary(max_size=max(8, len(value) + 4))),
+        st.builds(lambda b: {'kind': 'value', 'name': 'random-value', 'hex': b.hex(), 'random': True}, st.binary(max_size=max(8, len(value) + 4))),
         st.builds(lambda i, x: {'kind': 'flip', 'at': i, 'xor': x}, st.integers(0, 300), st.integers(1, 255)),
     ]
     typed = value_corruptions(a['code'], value, session) if value else []
@@ -604,6 +616,7 @@ def _check(case: dict) -> dict:
     base_body = ws.render_update(base)
     body, what = corrupt(base, case['target'], case['cor'])
     attr, kind = ref.name(what['code']), what['kind']
+    target_offset = what['offset']
     ana = ref.analyse(body, session)
     if not ana['outer_ok']:
         raise RuntimeError(f'the corruption broke the outer framing: {body.hex()}')
@@ -618,9 +631,9 @@ def _check(case: dict) -> dict:
         # the corrupted attribute itself still reads well (a length field moved the boundaries): what is wrong is what follows
         first = ana['faults'][0]
         judge.attr, judge.kind = ref.name(first['code']), f'{first["kind"]}-behind-shifted-boundary'
-    elif case['cor']['kind'] in ('lenfield', 'extlen'):
-        # a moved boundary: name the fault it makes of the attribute itself (zero-length, value, framing:overrun ...)
-        judge.kind = next(f['kind'] for f in ana['faults'] if f['code'] == what['code'])
+    elif case['cor']['kind'] in ('lenfield', 'extlen', 'flip') or case['cor'].get('random'):
+        # a moved boundary or random bytes: name the fault it makes of the attribute itself (zero-length, value, framing:overrun ...)
+        judge.kind = next((f['kind'] for f in ana['faults'] if f['code'] == what['code']), kind)
 
     if body == base_body or ana['allowed'] == frozenset({'ok'}):
         return {'nontrivial': False, 'classes': classes + ['corruption-left-a-wellformed-update']}
@@ -712,7 +725,7 @@ def _check(case: dict) -> dict:
         if 'discard' not in allowed:
             framing = ana['framing']
             shown = f'{own_key}={api["attrs"].get(own_key)!r}' if own_key else (f'next hops {sorted({v[0] for v in announced.values()})}' if what['code'] in (3, 14, 15) else '')
-            if framing and framing['kind'] == 'overrun' and framing['code'] == what['code'] and marked == 'unmarked' and (what['code'] in (3, 14, 15) or (own_key and own_key in api['attrs'])):
+            if framing and framing['kind'] == 'overrun' and framing['offset'] == target_offset and marked == 'unmarked':
                 judge.fail('overrun-accepted:unmarked', f'declared length {framing["declared"]} with {framing["available"]} octets left in the block, yet {shown} is reported with announced routes {sorted(map(str, announced))[:2]}', 'attr')
             judge.announced('announced-despite-malformed', f'routes announced {sorted(map(str, announced))[:2]} with {shown or "the attribute"}; RFC 7606 asks for {sorted(allowed)}')
         _compare_discard('api', judge, expected, {'announce': announced, 'attrs': api['attrs'], 'withdraw': api['withdraw']}, ana, own_key)
